@@ -100,6 +100,7 @@ class Gen:
         self.rng = rng
         self.sysonly = sysonly   # also shapes the script model does not cover (system stage only)
         self.outside = []        # files next to the source directory (named by absolute-path strings)
+        self.absin = []          # srcdir files that some edge names by an absolute-path string
         self.names = Names(rng, special_rate)
         self.size = size
         self.tree = {}          # relpath -> content (files to create); directories as key ending in '/'
@@ -318,6 +319,7 @@ class Gen:
             if form == 'absin':
                 # the script spells the file by its absolute path: root = absolute, written as an absolute path
                 out.append(('absin', name))
+                self.absin.append(p)
                 continue
             self.mark(p, True)
             self.refs.add(p)
@@ -834,6 +836,7 @@ class Replayed:
                 'names': sorted(k[len(fd) + 1:] for k in files if k.startswith(fd + '/') and '/' not in k[len(fd) + 1:])}]
         self.history = r.get('history')
         self.outside = r.get('outside', [])
+        self.absin = r.get('absin', [])
         self.hseed = r.get('hseed', 0)
         m = re.search(r"project\('proj', version='([^']*)'\)", files.get('build.bfg', ''))
         self.version = m.group(1) if m else None
@@ -1155,6 +1158,14 @@ def check_project(rep, g, tag, regen=False):
             if not present(p):
                 fail('file read from srcdir is not in the archive', p,
                      ('opened-non-script',) if (p in opened and p not in refs and p not in scripts) else ())
+        # (1b) a file below the source directory that an edge names by an absolute-path STRING: the build file mentions it
+        # by that absolute path (no $(srcdir)), so the decoder above does not see it - it is a file below srcdir that the
+        # build file references all the same
+        for p in sorted(set(getattr(g, 'absin', []))):
+            q = p.rstrip('/')
+            if (os.path.join(src, q) + ' ') in mk.replace('\n', ' \n') and not present(q):
+                fail('file below the source directory that the build file references by its absolute path is not in the archive',
+                     q, ('abs-string-dependency-below-srcdir',))
         # (2) dist=False only -> absent
         for p in sorted(g.nodist - g.withdist):
             if p in members:
@@ -1262,7 +1273,7 @@ def report_system(rep, g, what, detail, classes, regen):
                                                  'detail': detail, 'regen': regen, 'regen_find': g.regen_find,
                                                  'sites': g.sites, 'history': g.history, 'hseed': g.hseed,
                                                  'nodist': sorted(g.nodist), 'withdist': sorted(g.withdist),
-                                                 'nodist_dirs': sorted(g.nodist_dirs), 'outside': sorted(g.outside)},
+                                                 'nodist_dirs': sorted(g.nodist_dirs), 'outside': sorted(g.outside), 'absin': sorted(g.absin)},
              classes=classes, found_input='harness' not in classes)
 
 
